@@ -34,6 +34,14 @@ CHECKS['C03'] = ('exploration',
          'Bounded to the enumerated letters (values between the ladder rungs are not visited). Trusted: mpmath at 50 digits, '
          'closed-form reference exponential self-tested against mpmath.expm.',
          'DESIGN.md 3/C03')
+CHECKS['C01'] = ('model_checking',
+         'exhaustive constructor products + BFS over the group-element value graph with the membership invariant in every state',
+         'Every constructor entry point of the base package and of SO2/SE2/SO3/SE3/UnitQuaternion over the full product of '
+         'its argument alphabets (angle ladders at 0, +-pi/2, +-pi, 2pi, many turns, both units, all orders and aliases, '
+         'axes x lengths 1e-3..1e6, OA pairs, vector angles, RNG seeds), and a breadth-first exploration from a generator set '
+         'under *, /, inv, **n (|n|<=8), prod, interp with the validity invariant (1e-9) evaluated on every reached value.',
+         'Bounded to the enumerated letters and BFS depth 2 (thorough 3). OA pairs closer than 1e-3 rad are outside (numerically parallel).',
+         'DESIGN.md 3/C01')
 PENDING = {}
 
 def main():
